@@ -1,0 +1,20 @@
+//go:build verif
+
+package checkpoint
+
+// Contracts for the verification machinery in /verif (build tag "verif").
+
+//@ func CheckpointInfo.RunIdKey
+//@   arith int
+//@   properties C07
+//@   modifies nothing
+
+//@ func CheckpointInfo.VersionKey
+//@   arith int
+//@   properties C07
+//@   modifies nothing
+
+//@ func CheckpointInfo.OffsetKey
+//@   arith int
+//@   properties C07
+//@   modifies nothing
